@@ -11,7 +11,7 @@
     [save] returns a flag: [false] when a look inside a writer raised (BSP.save raises, no file is written). *)
 From Coq Require Import List Arith.
 From Coq Require Import NArith.
-From SV Require Import SM.LazyLumps SM.LazyLumpsProofs SM.LazyLumpsAppend Fmt.BspContainer Fmt.BspContainerProofs.
+From SV Require Import SM.LazyLumps SM.LazyLumpsProofs SM.LazyLumpsAppend SM.LazyLumpsCond Fmt.BspContainer Fmt.BspContainerProofs.
 From SV Require Bin.FindInsert.
 Import ListNotations.
 
@@ -177,6 +177,68 @@ Theorem c10_snapshot_save_refuted :
   fst r = true /\ raw (snd r) 1 = 0 /\ cache (snd r) 1 = Some [2] /\
   raw (snd (save nat (list nat) 0 ex_rd ex_wr g_wdep std_shape (run nat (list nat) 0 ex_rd g_wdep std_shape [0] ex_s0))) 1 = 2.
 Proof. exact snapshot_save_refuted. Qed.
+
+(** ---------------------------------------------------------------------------------------------------------
+    Conditional stores (round 3, fault class of seeded c10_4).  A writer whose store of an owned lump may be skipped for
+    some values is [wrc : nat -> P -> list (option D)] ([None] = skipped: the lump keeps what it holds); [save_c] is
+    BSP.save with such writers (SM/LazyLumpsCond.v).  Instance obligation of the check: today's writers store no
+    lump that a view clears conditionally, so [save] is the model of today's BSP.save. *)
+Section C10Cond.
+  Variables D P : Type.
+  Variable empty : D.
+  Variable rd : nat -> list D -> option P.
+  Variable wrc : nat -> P -> list (option D).
+  Variable g : graph.
+  Variable sh : shape.
+
+  (** A skipped store of a lump that a view clears is a store of b'': for every order-consistent graph, every shape and
+      every access sequence, saving with skipped stores is exactly saving with the writer that stores b'' instead
+      (every lump of a cached view is b'' when its writer runs, and looks only ever empty lumps). *)
+  Theorem c10_skipped_store_of_cleared_lump_stores_empty : order_consistent g = true ->
+    forall (s0 : state D P) accs, fresh D P s0 ->
+    save_c D P empty rd wrc g sh (run D P empty rd g sh accs s0)
+    = save D P empty rd (wr_fill D P empty wrc) g sh (run D P empty rd g sh accs s0).
+  Proof. exact (save_c_eq_save D P empty rd wrc g sh). Qed.
+
+  (** Hence saving with conditional stores is lossless exactly when the writer that stores b'' for a skipped store inverts
+      the reader: the reader must make of b'' the very value for which the store is skipped. *)
+  Theorem c10_conditional_store_lossless : order_consistent g = true -> shape_ok sh = true ->
+    forall (s0 : state D P) accs, fresh D P s0 ->
+    wr_len_ok D P rd (wr_fill D P empty wrc) g s0 -> codec_ok D P rd (wr_fill D P empty wrc) g s0 ->
+    let r := save_c D P empty rd wrc g sh (run D P empty rd g sh accs s0) in
+    (fst r = true -> fresh D P (snd r) /\ same_content D P rd g (snd r) s0) /\
+    (writers_can_look D P rd g s0 -> fst r = true).
+  Proof. exact (cond_save_lossless D P empty rd wrc g sh). Qed.
+End C10Cond.
+
+(** seeded fault class c10_4: the store of the auxiliary lump is skipped when all its values are zero, but the reader's
+    default for an absent lump is (9, 0): the values (0, 0) come back as (9, 0) although every graph condition holds
+    (what fails is [codec_ok] of the filled writer); one non-zero value and the same history is lossless. *)
+Theorem c10_conditional_store_refuted :
+  let rd := cx_rd [9; 0] in
+  let s0 := cx_file [0; 0] in
+  let r := save_c (list nat) (list (list nat)) [] rd cx_wrc g_aux std_shape (run (list nat) (list (list nat)) [] rd g_aux std_shape [0] s0) in
+  order_consistent g_aux = true /\
+  denote (list nat) (list (list nat)) rd g_aux s0 0 = Some [[7]; [0; 0]] /\
+  fst r = true /\ raw (snd r) 2 = [7] /\ raw (snd r) 3 = [] /\
+  denote (list nat) (list (list nat)) rd g_aux (snd r) 0 = Some [[7]; [9; 0]] /\
+  rd 0 (wr_fill (list nat) (list (list nat)) [] cx_wrc 0 [[7]; [0; 0]]) <> Some [[7]; [0; 0]] /\
+  raw (snd (save_c (list nat) (list (list nat)) [] rd cx_wrc g_aux std_shape
+              (run (list nat) (list (list nat)) [] rd g_aux std_shape [0] (cx_file [0; 4])))) 3 = [0; 4].
+Proof. exact conditional_store_refuted. Qed.
+
+(** Non-vacuity: with the default (0, 0) the hypotheses hold on a file for which the store IS skipped; the lump comes
+    back empty, the view parses to the same content (the OVERLAY_SYSTEM_LEVELS half of the seeded change). *)
+Theorem c10_conditional_store_hypotheses_satisfiable :
+  let rd := cx_rd [0; 0] in
+  let s0 := cx_file [0; 0] in
+  let r := save_c (list nat) (list (list nat)) [] rd cx_wrc g_aux std_shape (run (list nat) (list (list nat)) [] rd g_aux std_shape [0] s0) in
+  fresh (list nat) (list (list nat)) s0 /\
+  wr_len_ok (list nat) (list (list nat)) rd (wr_fill (list nat) (list (list nat)) [] cx_wrc) g_aux s0 /\
+  codec_ok (list nat) (list (list nat)) rd (wr_fill (list nat) (list (list nat)) [] cx_wrc) g_aux s0 /\
+  cx_wrc 0 [[7]; [0; 0]] = [Some [7]; None] /\ raw (snd r) 3 = [] /\
+  denote (list nat) (list (list nat)) rd g_aux (snd r) 0 = denote (list nat) (list (list nat)) rd g_aux s0 0.
+Proof. exact cond_hyps_satisfiable. Qed.
 
 (** ---------------------------------------------------------------------------------------------------------
     The file container (Fmt/BspContainer.v): header, lump table in either field order, map revision, payload
